@@ -63,21 +63,42 @@ Definition judge_search (all : list store) (c : csearch) : N :=
    bbolt write transaction (1: before the batch callback, 2: after it returned nil, 3: after it returned an
    error; nothing committed in any of them). cs_v1 = 4, 5: no writer at all; reader 4 started on a cold
    shard, reader 5 was started on the same shared cache at a chosen bucket operation of reader 4.
+   cs_v1 = 6: nothing concurrent -- one search after the other on caches an earlier read transaction created
+   (codes 151..157).
    The only committed version is cs_v0: the search must succeed and every row must be live there with the
    document of that version. *)
 Definition judge_forced (all : list store) (c : csearch) : N :=
-  let base := if cs_v1 c <=? 3 then 170 else 160 in
+  let base := if cs_v1 c <=? 3 then 170 else if (cs_v1 c =? 6) || (cs_v1 c =? 7) then 150 else 160 in
   match cs_out c with
   | QError k => base + k           (* +1 point does not exist, +2 transaction ended, +3 other, +4 hung,
                                       +5 a node the index search needs is read as absent *)
   | QRows rows =>
       let vs := window (N.to_nat (cs_v0 c)) (N.to_nat (cs_v0 c)) all in
       if negb (nodup_ids (map r_id rows)) then base + 6
-      else if forallb (row_ok vs) rows then 0 else base + 7
+      else if negb (forallb (row_ok vs) rows) then base + 7
+      else if cs_v1 c =? 7 then
+        (* exact regime: the pre-filter names live points that carry the vector, not more than the limit and the
+           search size: exactly those come back *)
+        match rq_query (cs_req c) with
+        | QVamana _ _ _ _ _ (Some (QIdAny ids)) =>
+            if (length rows =? length ids)%nat && forallb (fun x => mem_bytes (r_id x) ids) rows then 0 else 158
+        | _ => 0
+        end
+      else 0
   end.
 
 Fixpoint first_nonzero (l : list N) : N :=
   match l with [] => 0 | x :: r => if x =? 0 then first_nonzero r else x end.
+
+(* several searches of one run can fail: a failure that is NOT one of the listed known-finding symptoms (191, 194:
+   stress runs; 165: read-only concurrency) is reported in preference to one that is, so that a known symptom
+   earlier in the run does not hide a different failure later in it *)
+Definition known_symptom (c : N) : bool := (c =? 191) || (c =? 194) || (c =? 165).
+Definition pick_code (codes : list N) : N :=
+  match first_nonzero (filter (fun c => negb (known_symptom c)) codes) with
+  | 0 => first_nonzero codes
+  | c => c
+  end.
 
 Definition verdict (c : c09case) : N :=
   match c with
@@ -87,7 +108,7 @@ Definition verdict (c : c09case) : N :=
       let all := versions sc maxsize bs [] in
       let final := last all [] in
       if negb (outputs_ok sc maxsize bs []) then 101 else
-      let c1 := first_nonzero (map (judge_search all) searches) in
+      let c1 := pick_code (map (judge_search all) searches) in
       if negb (c1 =? 0) then c1 else
       if negb (store_eqb fw final) then 197 else
       if negb (store_eqb fc final) then 198 else 0
@@ -95,7 +116,7 @@ Definition verdict (c : c09case) : N :=
       let all := versions sc maxsize bs [] in
       let final := last all [] in
       if negb (outputs_ok sc maxsize bs []) then 101 else
-      let c1 := first_nonzero (map (judge_forced all) searches) in
+      let c1 := pick_code (map (judge_forced all) searches) in
       if negb (c1 =? 0) then c1 else
       if negb (store_eqb fw final) then 178 else
       if negb (store_eqb fc final) then 179 else 0
